@@ -225,6 +225,138 @@ theorem hdrFlagsTest_after_set (f t : UInt16) (ht : t.toNat < 16) :
   rw [e]
   exact bne_iff_ne.mpr hne
 
+/-! ### state predicates: `Parsed()` / `Empty()` / `Pending()` / `Err()` / `Missing()`
+
+The model's parser states are inductive types without numbers (the numbering is not observable). To tie the Go predicates,
+which compare the numeric state with a constant, each constructor is numbered here by the REGENERATED constant OF THE SAME
+NAME (`ciFound` ↦ `Gen.C.ciFound` …), the numbering is shown injective (no two states share a number, so a predicate on
+numbers cannot conflate states), and the translated predicate applied to the number of a state is proved equal to the
+model's predicate on the state. If `Parsed()` were changed to test another constant, or two constants were given the same
+value, these theorems would fail. -/
+
+/-- the Go numbering of the model's states: each constructor is numbered by the REGENERATED constant of the same name -/
+def ciNum : CIState → Nat
+  | .init => Gen.C.ciInit | .found => Gen.C.ciFound | .fend => Gen.C.ciEnd | .fin => Gen.C.ciFIN
+def clNum : CLState → Nat
+  | .init => Gen.C.clInit | .found => Gen.C.clFound | .fend => Gen.C.clEnd | .fin => Gen.C.clFIN
+def csNum : CSState → Nat
+  | .init => Gen.C.csInit | .foundDigit => Gen.C.csFoundDigit | .endDigit => Gen.C.csEndDigit
+  | .foundMethod => Gen.C.csFoundMethod | .fend => Gen.C.csEnd | .fin => Gen.C.csFIN
+def flNum : FLState → Nat
+  | .init => Gen.C.flInit | .reqMethod => Gen.C.flReqMethod | .reqURI => Gen.C.flReqURI | .reqVer => Gen.C.flReqVer
+  | .rplStatus => Gen.C.flRplStatus | .rplReason => Gen.C.flRplReason | .crlf => Gen.C.flCRLF | .fin => Gen.C.flFIN
+def msgNum : MsgState → Nat
+  | .init => Gen.C.SIPMsgInit | .fline => Gen.C.SIPMsgFLine | .headers => Gen.C.SIPMsgHeaders | .body => Gen.C.SIPMsgBody
+  | .err => Gen.C.SIPMsgErr | .noCLen => Gen.C.SIPMsgNoCLen | .fin => Gen.C.SIPMsgFIN
+
+theorem ciNum_inj (a b : CIState) : ciNum a = ciNum b → a = b := by cases a <;> cases b <;> decide
+theorem clNum_inj (a b : CLState) : clNum a = clNum b → a = b := by cases a <;> cases b <;> decide
+theorem csNum_inj (a b : CSState) : csNum a = csNum b → a = b := by cases a <;> cases b <;> decide
+theorem flNum_inj (a b : FLState) : flNum a = flNum b → a = b := by cases a <;> cases b <;> decide
+theorem msgNum_inj (a b : MsgState) : msgNum a = msgNum b → a = b := by cases a <;> cases b <;> decide
+theorem flNum_is_toNat (s : FLState) : flNum s = s.toNat := by cases s <;> decide
+
+-- TIE: PCallIDBody.Parsed
+theorem callidParsed_tie (s : PCallIDBody) : Gen.F.PCallIDBody_Parsed (UInt8.ofNat (ciNum s.state)) = s.parsed := by
+  unfold PCallIDBody.parsed; cases s.state <;> decide
+-- TIE: PCallIDBody.Empty
+theorem callidEmpty_tie (st : CIState) : Gen.F.PCallIDBody_Empty (UInt8.ofNat (ciNum st)) = (st == .init) := by
+  cases st <;> decide
+-- TIE: PCallIDBody.Pending
+theorem callidPending_tie (st : CIState) :
+    Gen.F.PCallIDBody_Pending (UInt8.ofNat (ciNum st)) = (st != .fin && st != .init) := by cases st <;> decide
+-- TIE: PUIntBody.Parsed
+theorem uintParsed_tie (s : PUIntBody) : Gen.F.PUIntBody_Parsed (UInt8.ofNat (clNum s.state)) = s.parsed := by
+  unfold PUIntBody.parsed; cases s.state <;> decide
+-- TIE: PUIntBody.Empty
+theorem uintEmpty_tie (st : CLState) : Gen.F.PUIntBody_Empty (UInt8.ofNat (clNum st)) = (st == .init) := by
+  cases st <;> decide
+-- TIE: PUIntBody.Pending
+theorem uintPending_tie (st : CLState) :
+    Gen.F.PUIntBody_Pending (UInt8.ofNat (clNum st)) = (st != .fin && st != .init) := by cases st <;> decide
+-- TIE: PCSeqBody.Parsed
+theorem cseqParsed_tie (s : PCSeqBody) : Gen.F.PCSeqBody_Parsed (UInt8.ofNat (csNum s.state)) = s.parsed := by
+  unfold PCSeqBody.parsed; cases s.state <;> decide
+-- TIE: PCSeqBody.Empty
+theorem cseqEmpty_tie (st : CSState) : Gen.F.PCSeqBody_Empty (UInt8.ofNat (csNum st)) = (st == .init) := by
+  cases st <;> decide
+-- TIE: PCSeqBody.Pending
+theorem cseqPending_tie (st : CSState) :
+    Gen.F.PCSeqBody_Pending (UInt8.ofNat (csNum st)) = (st != .fin && st != .init) := by cases st <;> decide
+-- TIE: PFLine.Parsed
+theorem flineParsed_tie (pl : PFLine) : Gen.F.PFLine_Parsed (UInt8.ofNat (flNum pl.state)) = pl.parsed := by
+  unfold PFLine.parsed; cases pl.state <;> decide
+-- TIE: PFLine.Empty
+theorem flineEmpty_tie (pl : PFLine) : Gen.F.PFLine_Empty (UInt8.ofNat (flNum pl.state)) = pl.isEmpty := by
+  unfold PFLine.isEmpty; cases pl.state <;> decide
+-- TIE: PFLine.Pending
+theorem flinePending_tie (pl : PFLine) : Gen.F.PFLine_Pending (UInt8.ofNat (flNum pl.state)) = pl.pending := by
+  unfold PFLine.pending; cases pl.state <;> decide
+-- TIE: PSIPMsg.Parsed
+theorem msgParsed_tie (m : PSIPMsg) : Gen.F.PSIPMsg_Parsed (UInt8.ofNat (msgNum m.state)) = m.parsed := by
+  unfold PSIPMsg.parsed; cases m.state <;> decide
+-- TIE: PSIPMsg.Err
+theorem msgErr_tie (st : MsgState) : Gen.F.PSIPMsg_Err (UInt8.ofNat (msgNum st)) = (st == .err) := by
+  cases st <;> decide
+def fbNum : FBState → Nat
+  | .init => Gen.C.fbInit
+  | .nameOrURI => Gen.C.fbNameOrURI
+  | .nameOrURIEnd => Gen.C.fbNameOrURIEnd
+  | .name => Gen.C.fbName
+  | .quoted => Gen.C.fbQuoted
+  | .uri => Gen.C.fbURI
+  | .uriFound => Gen.C.fbURIFound
+  | .newPossibleParam => Gen.C.fbNewPossibleParam
+  | .possibleParamName => Gen.C.fbPossibleParamName
+  | .possibleParamNameEnd => Gen.C.fbPossibleParamNameEnd
+  | .newParam => Gen.C.fbNewParam
+  | .paramName => Gen.C.fbParamName
+  | .paramNameEnd => Gen.C.fbParamNameEnd
+  | .newParamVal => Gen.C.fbNewParamVal
+  | .paramVal => Gen.C.fbParamVal
+  | .paramValEnd => Gen.C.fbParamValEnd
+  | .newPossibleVal => Gen.C.fbNewPossibleVal
+  | .possibleVal => Gen.C.fbPossibleVal
+  | .possibleValEnd => Gen.C.fbPossibleValEnd
+  | .quotedVal => Gen.C.fbQuotedVal
+  | .quotedPossibleVal => Gen.C.fbQuotedPossibleVal
+  | .tagT => Gen.C.fbTagT
+  | .tagA => Gen.C.fbTagA
+  | .tagG => Gen.C.fbTagG
+  | .tagEq => Gen.C.fbTagEq
+  | .tagVal => Gen.C.fbTagVal
+  | .pTagT => Gen.C.fbPTagT
+  | .pTagA => Gen.C.fbPTagA
+  | .pTagG => Gen.C.fbPTagG
+  | .pTagEq => Gen.C.fbPTagEq
+  | .pTagVal => Gen.C.fbPTagVal
+  | .star => Gen.C.fbStar
+  | .fin => Gen.C.fbFIN
+theorem fbNum_inj (a b : FBState) : fbNum a = fbNum b → a = b := by
+  intro h
+  cases a <;> cases b <;> first | rfl | (exact absurd h (by decide))
+-- TIE: PFromBody.Parsed
+theorem fromParsed_tie (pf : PFromBody) : Gen.F.PFromBody_Parsed (UInt8.ofNat (fbNum pf.state)) = pf.parsed := by
+  unfold PFromBody.parsed; cases pf.state <;> decide
+-- TIE: PFromBody.Empty
+theorem fromEmpty_tie (pf : PFromBody) : Gen.F.PFromBody_Empty (UInt8.ofNat (fbNum pf.state)) = pf.isEmpty := by
+  unfold PFromBody.isEmpty; cases pf.state <;> decide
+-- TIE: PFromBody.Pending
+theorem fromPending_tie (pf : PFromBody) : Gen.F.PFromBody_Pending (UInt8.ofNat (fbNum pf.state)) = pf.pending := by
+  unfold PFromBody.pending; cases pf.state <;> decide
+-- TIE: Hdr.Missing
+theorem hdrMissing_tie (h : Hdr) (ht : h.type < 65536) : Gen.F.Hdr_Missing (UInt16.ofNat h.type) = h.missing := by
+  unfold Gen.F.Hdr_Missing Hdr.missing HdrNone
+  by_cases h0 : h.type = 0
+  · simp [h0]
+  · have : UInt16.ofNat h.type ≠ 0 := by
+      intro e; apply h0
+      have := congrArg UInt16.toNat e
+      simpa [UInt16.toNat_ofNat', Nat.mod_eq_of_lt ht] using this
+    have e1 : (UInt16.ofNat h.type == 0) = false := beq_false_of_ne this
+    have e2 : (h.type == 0) = false := beq_false_of_ne h0
+    rw [e1, e2]
+
 /-! ### methods that assign struct fields and may panic: `PField.Set`, `PField.Extend` -/
 
 private theorem ofInt16_nat (n : Nat) : GoSem.ofInt16 (Int.ofNat n) = UInt16.ofNat (n % 65536) := by
